@@ -2,7 +2,7 @@ import TypedpyModel.Lemmas.LiftLists
 namespace Typedpy
 open PyVal (pyEq pyMem pyNodup)
 
-theorem toValueErr_eq_ok {α} (r : R α) (y : α) : toValueErr r = .ok y ↔ r = .ok y := by
+theorem lf_toValueErr_eq_ok {α} (r : R α) (y : α) : toValueErr r = .ok y ↔ r = .ok y := by
   unfold toValueErr
   cases r with
   | ok z => simp
@@ -45,7 +45,7 @@ theorem seq_assemble (k : SeqKind) (sz : SizeOpts) (p : Nat → Bool)
     simp only [dSeq, docSeq] at h1
     rcases bindE_eq_ok h1 with ⟨ys, hys, h3⟩
     cases h3
-    have hys' := (toValueErr_eq_ok _ _).mp hys
+    have hys' := (lf_toValueErr_eq_ok _ _).mp hys
     rcases (vSeq_mkSeq_ok k sz p vg ys hu r).mp h2 with ⟨s1, s2, zs, hz, rfl⟩
     rcases (hequiv zs).mp ⟨ys, hys', hz⟩ with ⟨ws, g1, g2⟩
     have hl : ws.length = ys.length := by rw [hlenL xs ws g1, hlenD xs ys hys']
@@ -83,7 +83,7 @@ theorem tuple_assemble (uniq : Bool) (p : Nat → Bool)
     simp only [dSeq, docSeq] at h1
     rcases bindE_eq_ok h1 with ⟨ys, hys, h3⟩
     cases h3
-    have hys' := (toValueErr_eq_ok _ _).mp hys
+    have hys' := (lf_toValueErr_eq_ok _ _).mp hys
     rcases (vTuple_ok uniq p vg ys hu r).mp h2 with ⟨s2, zs, hz, rfl⟩
     rcases (hequiv zs).mp ⟨ys, hys', hz⟩ with ⟨ws, g1, g2⟩
     have hl : ws.length = ys.length := by rw [hlenL xs ws g1, hlenD xs ys hys']
